@@ -322,12 +322,12 @@ def gen_wasm():
     for bad in ("JsError", "JsValue", "serde_wasm_bindgen", "serializer"):
         if bad in body:
             raise Fail("blots-wasm/src/lib.rs: format_blots uses %s in a way the translator does not know" % bad)
+    # the crate's own imports from blots_core, verbatim (a change may add helpers)
+    uses = re.findall(r"^use blots_core::(?:\{.*?\}|[^;{]*);", src, re.S | re.M)
+    if not uses:
+        raise Fail("blots-wasm/src/lib.rs: no `use blots_core::` statements found")
     text = ("// GENERATED by tools/gen_tables.py from /repo/blots-wasm/src/lib.rs (format_blots) - do not edit.\n"
-            "#![allow(unused_imports, clippy::all)]\n"
-            "use blots_core::ast::{Expr, Spanned};\n"
-            "use blots_core::expressions::pairs_to_expr_with_comments;\n"
-            "use blots_core::formatter::{format_expr, join_statements_with_spacing};\n"
-            "use blots_core::parser::{Rule, get_pairs};\n\n"
+            "#![allow(unused_imports, clippy::all)]\n" + "\n".join(uses) + "\n\n"
             "pub fn format_blots(source: &str, max_columns: Option<usize>) -> Result<String, String> {" + body + "}\n")
     hp = os.path.join(os.path.dirname(os.path.abspath(__file__)), "..", "harness", "src", "gen_wasm_format.rs")
     old = open(hp, encoding="utf-8").read() if os.path.exists(hp) else None
